@@ -99,6 +99,8 @@ impl PSock {
             }
             let sz: i32 = 4 << 20;
             libc::setsockopt(fd, libc::SOL_SOCKET, libc::SO_RCVBUF, &sz as *const _ as *const libc::c_void, 4);
+            let one: i32 = 1;
+            libc::setsockopt(fd, libc::SOL_SOCKET, libc::SO_TIMESTAMPNS, &one as *const _ as *const libc::c_void, 4);
             Ok(PSock { fd, ifindex: idx as i32, udp, ip_id: std::cell::Cell::new(1) })
         }
     }
@@ -136,21 +138,43 @@ impl PSock {
     }
     /// next frame that arrived on the interface (frames we sent ourselves are skipped)
     pub fn recv(&self) -> Option<Vec<u8>> {
+        self.recv_ts().map(|x| x.0)
+    }
+
+    /// like `recv`, with the kernel's receive timestamp (system time, ns) of the frame
+    pub fn recv_ts(&self) -> Option<(Vec<u8>, u128)> {
         let mut buf = vec![0u8; 4096];
         loop {
             unsafe {
                 let mut sll: libc::sockaddr_ll = std::mem::zeroed();
-                let mut sl = std::mem::size_of::<libc::sockaddr_ll>() as u32;
-                let n = libc::recvfrom(self.fd, buf.as_mut_ptr() as *mut libc::c_void, buf.len(), 0, &mut sll as *mut _ as *mut libc::sockaddr, &mut sl);
+                let mut iov = libc::iovec { iov_base: buf.as_mut_ptr() as *mut libc::c_void, iov_len: buf.len() };
+                let mut ctrl = [0u64; 16];
+                let mut mh: libc::msghdr = std::mem::zeroed();
+                mh.msg_name = &mut sll as *mut _ as *mut libc::c_void;
+                mh.msg_namelen = std::mem::size_of::<libc::sockaddr_ll>() as u32;
+                mh.msg_iov = &mut iov;
+                mh.msg_iovlen = 1;
+                mh.msg_control = ctrl.as_mut_ptr() as *mut libc::c_void;
+                mh.msg_controllen = std::mem::size_of_val(&ctrl) as _;
+                let n = libc::recvmsg(self.fd, &mut mh, 0);
                 if n < 0 {
                     return None;
+                }
+                let mut at = now_ns();
+                let mut c = libc::CMSG_FIRSTHDR(&mh);
+                while !c.is_null() {
+                    if (*c).cmsg_level == libc::SOL_SOCKET && (*c).cmsg_type == libc::SCM_TIMESTAMPNS {
+                        let ts: libc::timespec = std::ptr::read_unaligned(libc::CMSG_DATA(c) as *const libc::timespec);
+                        at = ts.tv_sec as u128 * 1_000_000_000 + ts.tv_nsec as u128;
+                    }
+                    c = libc::CMSG_NXTHDR(&mh, c);
                 }
                 if sll.sll_pkttype == 4 {
                     continue; // PACKET_OUTGOING
                 }
                 let f = &buf[..n as usize];
                 if !self.udp {
-                    return Some(f.to_vec());
+                    return Some((f.to_vec(), at));
                 }
                 // IPv4 / UDP to port 319 or 320
                 if f.len() < 28 || f[0] >> 4 != 4 || f[9] != 17 {
@@ -168,7 +192,7 @@ impl PSock {
                 if ulen < 8 {
                     continue;
                 }
-                return Some(f[ihl + 8..ihl + ulen].to_vec());
+                return Some((f[ihl + 8..ihl + ulen].to_vec(), at));
             }
         }
     }
@@ -284,6 +308,7 @@ pub struct World {
     next_poll: Instant,
     pub obs_polls: u64,
     pub obs_problems: Vec<String>,
+    pub obs_misses: u32,
     /// the parent's Announces are `versioned_ann`s (enables the cross-data-set version test of `obs_invariants`)
     pub versioned: bool,
     daemon: Child,
@@ -374,6 +399,7 @@ impl World {
             next_poll: Instant::now(),
             obs_polls: 0,
             obs_problems: vec![],
+            obs_misses: 0,
             versioned: false,
             daemon,
             a1,
@@ -441,11 +467,11 @@ impl World {
     }
 
     fn drain(&mut self) {
-        while let Some(f) = self.b1.recv() {
+        while let Some((f, at)) = self.b1.recv_ts() {
             if let Ok(m) = decode(&f) {
                 if m.header.source.clock == self.own_identity {
                     if self.keep_frames {
-                        self.frames_b.push((now_ns(), m.clone()));
+                        self.frames_b.push((at, m.clone()));
                     }
                     self.log.push(('b', m.header.msg_type, Instant::now()));
                     self.seen_b_by_type[(m.header.msg_type & 0xf) as usize] += 1;
@@ -489,6 +515,11 @@ impl World {
             None => {
                 if self.alive() {
                     self.obs_problems.push("observation socket did not deliver a parsable state".into());
+                }
+                // a socket that no longer answers costs a read time-out per poll: stop polling after three misses
+                self.obs_misses += 1;
+                if self.obs_misses >= 3 {
+                    self.poll_obs_ms = None;
                 }
             }
             Some(st) => {
@@ -547,7 +578,7 @@ impl World {
 
     pub fn observe(&self) -> Option<statime_linux::metrics::exporter::ObservableState> {
         let mut s = connect_unix_nonblocking(&self.dir.join("obs.sock"))?;
-        s.set_read_timeout(Some(Duration::from_millis(500))).ok()?;
+        s.set_read_timeout(Some(Duration::from_millis(200))).ok()?;
         let mut v = vec![];
         s.read_to_end(&mut v).ok()?;
         serde_json::from_slice(&v).ok()
@@ -971,6 +1002,7 @@ pub fn case_c19(w: &mut World, exp: &RealExporter, t: &mut Tape) -> E2eOut {
     w.emulate_master = !w.variant.p2p;
     let resps0 = w.delay_resps_sent;
     w.obs_problems.clear();
+    w.obs_misses = 0;
     w.poll_obs_ms = Some(20);
     if t.chance(1, 3) {
         // role changes under observation: the parent falls silent until the port has taken over, then returns;
@@ -1106,6 +1138,7 @@ pub fn case_c17(w: &mut World, t: &mut Tape) -> E2eOut {
     }
     let flood_ms = t.urange(400, 1200);
     w.obs_problems.clear();
+    w.obs_misses = 0;
     w.poll_obs_ms = Some(15);
     w.versioned = true;
     // per-iteration weights of the traffic kinds
@@ -1290,6 +1323,7 @@ pub fn case_c12(w: &mut World, t: &mut Tape) -> E2eOut {
         }
     }
     w.obs_problems.clear();
+    w.obs_misses = 0;
     w.poll_obs_ms = Some(20);
     let window_ms = t.urange(800, 2000);
     let silence_ms = if t.chance(1, 5) { t.urange(100, 300) } else { t.urange(1300, 2200) };
@@ -1429,8 +1463,8 @@ pub fn case_c12(w: &mut World, t: &mut Tape) -> E2eOut {
 /// (sequence ids, correction fields, requesters) are sent to it. The daemon's clock is the system clock here (virtual
 /// overlay, never steered in this case), so wire timestamps can be compared with the harness's own readings:
 /// Follow_Up: same sequence id as its Sync, exactly one per two-step Sync, preciseOrigin+correction within
-/// [arrival - 50 ms, arrival + 1 ms] of the Sync; Delay_Resp: echoes requester and sequence id, receiveTimestamp +
-/// correction - request correction within [send - 1 ms, send + 50 ms]; sequence ids of Announce, Sync increase by
+/// [arrival - 20 ms, arrival + 1 ms] of the Sync (kernel receive timestamp); Delay_Resp: echoes requester and sequence id, receiveTimestamp +
+/// correction - request correction within [send - 1 ms, send + 20 ms]; sequence ids of Announce, Sync increase by
 /// one; every frame bears the port's identity, domain 0, sdoId 0, version 2 and is at most 1024 bytes long.
 pub fn case_c10(w: &mut World, t: &mut Tape) -> E2eOut {
     let mut out = CaseOut::new();
@@ -1443,13 +1477,46 @@ pub fn case_c10(w: &mut World, t: &mut Tape) -> E2eOut {
     }
     let window_ms = t.urange(700, 1800);
     let nreq = t.urange(2, 10) as usize;
+    // in a third of the cases the master port's egress is plugged for a while (token bucket at 80 bit/s), so that
+    // event messages leave late and their transmit timestamps are not reported in time
+    let plug_ms = if t.chance(1, 3) { t.urange(700, 1300) } else { 0 };
+    let dev = if w.variant.swap { "a0" } else { "b0" };
     w.frames_b.clear();
     w.keep_frames = true;
+    if plug_ms > 0 {
+        if sh(&format!("tc qdisc replace dev {} root tbf rate 80bit burst 200 limit 400000", dev)).is_err() {
+            return E2eOut { out, inconclusive: Some("tc/tbf not available".into()) };
+        }
+        let d = Instant::now() + Duration::from_millis(plug_ms);
+        w.run_until(d);
+        let _ = sh(&format!("tc qdisc change dev {} root tbf rate 1gbit burst 400000 limit 4000000", dev));
+        let d = Instant::now() + Duration::from_millis(300);
+        w.run_until(d);
+        let _ = sh(&format!("tc qdisc del dev {} root", dev));
+        out.label("daemon:egress-plugged");
+    }
     let master_port = PortId { clock: w.own_identity, port: (1 - w.slave_idx) as u16 + 1 };
     let mut reqs: Vec<(u16, PortId, i64, u128)> = vec![];
+    // a stream of Pdelay_Req frames (answered by every port, whatever its delay mechanism): each costs the daemon an
+    // event send, a transmit timestamp and a follow-up - many chances for anything else to get in between
+    let pd_rate = if plug_ms == 0 && t.chance(2, 3) { *t.pick(&[100u64, 300, 600]) } else { 0 };
+    let pd_src = PortId { clock: [0x00, 0x1b, 0x19, 0xe2, 0, 0, 0, 1], port: 1 };
+    let mut pd_sent: Vec<u16> = vec![];
+    let mut pd_seq: u16 = t.below(0x10000) as u16;
     let t0 = Instant::now();
     for k in 0..nreq {
         let until = t0 + Duration::from_millis(window_ms * (k as u64 + 1) / (nreq as u64 + 1));
+        if pd_rate > 0 {
+            let step = Duration::from_micros(1_000_000 / pd_rate);
+            while Instant::now() + step < until {
+                let d = Instant::now() + step;
+                w.run_until(d);
+                pd_seq = pd_seq.wrapping_add(1);
+                let m = RMsg::new(T_PDELAY_REQ, pd_src, pd_seq, RBody::PdelayReq { origin: RTs::default(), reserved: [0; 10] });
+                w.send_b(&m);
+                pd_sent.push(pd_seq);
+            }
+        }
         w.run_until(until);
         let src = PortId { clock: [0x00, 0x1b, 0x19, 0xe1, 0, 0, t.below(256) as u8, t.below(256) as u8], port: 1 + t.below(3) as u16 };
         let seq = match t.below(3) {
@@ -1473,7 +1540,7 @@ pub fn case_c10(w: &mut World, t: &mut Tape) -> E2eOut {
     w.run_until(d);
     w.keep_frames = false;
     let frames = std::mem::take(&mut w.frames_b);
-    let rendered = json!({"window_ms": window_ms, "delay_requests": reqs.iter().map(|r| format!("seq {} corr {} from {:02x?}/{}", r.0, r.2, &r.1.clock[4..], r.1.port)).collect::<Vec<_>>(), "frames_from_master_port": frames.len()});
+    let rendered = json!({"window_ms": window_ms, "egress_plug_ms": plug_ms, "pdelay_req_per_s": pd_rate, "delay_requests": reqs.iter().map(|r| format!("seq {} corr {} from {:02x?}/{}", r.0, r.2, &r.1.clock[4..], r.1.port)).collect::<Vec<_>>(), "frames_from_master_port": frames.len()});
     out.render = rendered.clone();
     if !w.alive() {
         out.fail("daemon exited", rendered.to_string());
@@ -1513,14 +1580,30 @@ pub fn case_c10(w: &mut World, t: &mut Tape) -> E2eOut {
                     Some(r) => {
                         let got = ((receive.total_ns() as i128) << 16) + h.correction as i128 - r.2 as i128;
                         let d = (got >> 16) - r.3 as i128;
-                        if !(-1_000_000..=50_000_000).contains(&d) {
-                            out.fail("daemon: Delay_Resp receiveTimestamp + correction is not the receive time plus the request's correction", format!("off by {:.3} ms from the time the request was sent (allowed -1..50 ms) ; seq {} corr_req {} corr_resp {} ; {}", ms(d), h.seq, r.2, h.correction, rendered));
+                        if !(-1_000_000..=20_000_000).contains(&d) {
+                            out.fail("daemon: Delay_Resp receiveTimestamp + correction is not the receive time plus the request's correction", format!("off by {:.3} ms from the time the request was sent (allowed -1..20 ms) ; seq {} corr_req {} corr_resp {} ; {}", ms(d), h.seq, r.2, h.correction, rendered));
                         }
                     }
                 }
             }
             _ => {}
         }
+    }
+    // every Pdelay_Req answered by exactly one response and one follow-up echoing requester and id
+    if !pd_sent.is_empty() {
+        let mut resp: std::collections::HashMap<u16, (u32, u32)> = Default::default();
+        for (_, m) in &frames {
+            match &m.body {
+                RBody::PdelayResp { requesting, .. } if *requesting == pd_src => resp.entry(m.header.seq).or_default().0 += 1,
+                RBody::PdelayRespFup { requesting, .. } if *requesting == pd_src => resp.entry(m.header.seq).or_default().1 += 1,
+                _ => {}
+            }
+        }
+        let bad: Vec<(u16, (u32, u32))> = pd_sent.iter().map(|s| (*s, resp.get(s).copied().unwrap_or((0, 0)))).filter(|(_, c)| *c != (1, 1)).collect();
+        if !bad.is_empty() {
+            out.fail("daemon: Pdelay_Req not answered by exactly one Pdelay_Resp and one Pdelay_Resp_Follow_Up", format!("{} of {} requests, e.g. seq {} got {:?} (responses, follow-ups) ; {}", bad.len(), pd_sent.len(), bad[0].0, bad[0].1, rendered));
+        }
+        out.label("daemon:pdelay-stream");
     }
     // every Delay_Req answered exactly once
     for r in &reqs {
@@ -1535,13 +1618,14 @@ pub fn case_c10(w: &mut World, t: &mut Tape) -> E2eOut {
         if !*two_step {
             continue;
         }
-        if mine.len() > 1 || (mine.is_empty() && i + 1 < syncs.len()) {
+        // a Sync whose transmit timestamp was not reported (plugged egress) legitimately stays without Follow_Up
+        if mine.len() > 1 || (mine.is_empty() && i + 1 < syncs.len() && plug_ms == 0) {
             out.fail("daemon: two-step Sync not followed by exactly one Follow_Up with its sequence id", format!("{} Follow_Ups for Sync {} ; {}", mine.len(), seq, rendered));
         }
         if let Some(f) = mine.first() {
             let d = (f.1 >> 16) - *at as i128;
-            if !(-50_000_000..=1_000_000).contains(&d) {
-                out.fail("daemon: Follow_Up origin + correction is not the transmit time of its Sync", format!("off by {:.3} ms from the arrival of Sync {} (allowed -50..1 ms) ; {}", ms(d), seq, rendered));
+            if !(-20_000_000..=1_000_000).contains(&d) {
+                out.fail("daemon: Follow_Up origin + correction is not the transmit time of its Sync", format!("off by {:.3} ms from the arrival of Sync {} (allowed -20..1 ms) ; {}", ms(d), seq, rendered));
             }
         }
     }
